@@ -69,6 +69,11 @@ CHECKS = {
    text="partition(I,J) equals (ceil, floor, JL, JS) of the RFC for all u32 I and J>=1 and never panics; calculate_block_offsets yields exactly Z contiguous ranges, ZL of KL*T then ZS of KS*T bytes, only the last passing F and by less than T, for every valid (F,T) and Z<=5 (thorough 8); Decoder::new creates block decoders 0..Z-1 of those sizes and SourceBlockDecoder::new holds K=len/T symbols; create_symbols places sub-symbol (j,m) per the RFC formula and unpack_sub_blocks inverts it for 6 (13) shapes with symbolic data; whole objects (8 configurations) match an independent layout computation incl. zero padding, SBN/ESI numbering and T-byte payloads.",
    note="Encoder::new/Decoder::decode end to end are only observed concretely; Vec::new/push/from_elem are hand models in the MIR executor; shapes for the Kani units are small (Vec<Vec<u8>> growth).",
    design="§4 C05"),
+ "C18": dict(level="model_checking", engine="E2 MIR->SMT (z3 5.1 + cvc5)",
+   technique="symbolic execution of the MIR of repair_packets, the source_packets closure, get_encoded_packets and with_encoding_plan with symbolic K, s, n, block number; ids, the ISI handed to Tuple[] and all arguments of the pure payload functions are compared between windows and single requests by SMT queries",
+   text="For every K in 1..56403, every u32 start s and window length n<=3 with K+s+n<=2^24: packet i carries (sbn, K+s+i) and Enc of Tuple[K', K'+s+i] computed with K's parameters, ids strictly increase, nothing panics, the last id 2^24-1 is producible and ids >= 2^24 are refused; packet i of a window has exactly the arguments of the single request s+i (payload callees are pure: checked syntactically), so overlapping windows agree; source packet i is (sbn, i, source symbol i); the per-object list is, block by block, source packets then repair_packets(0,r); with_encoding_plan accepts a plan iff it was generated for the same symbol count. Both overflow-check settings. Concrete: windows vs singles near both ends of the ESI range, id 2^24 refused, two generated plans equal.",
+   note="K', W, J, P1 are uninterpreted functions of K here (C15 covers them); payload equality is inferred from argument equality; Vec/iterator operations are hand models; windows longer than 3 are outside the symbolic part.",
+   design="§4 C18"),
 }
 
 NOT_APPLICABLE = {
